@@ -275,6 +275,10 @@ pub(crate) struct BudgetEnforcer {
     defined_anchors: FastHashSet<usize>,
     containers: SmallVec<[ContainerState; 64]>,
     policy: EnforcingPolicy,
+    /// True when the caller feeds the replayed events of every alias back into `observe`
+    /// (deserialization). The replayed node then takes the alias's place in the enclosing
+    /// mapping, so the alias event itself must not advance the key/value bookkeeping.
+    aliases_expanded: bool,
 }
 
 #[derive(Clone, Copy, Debug)]
@@ -298,7 +302,14 @@ impl BudgetEnforcer {
             defined_anchors: FastHashSet::with_capacity(256),
             containers: SmallVec::new(),
             policy,
+            aliases_expanded: false,
         }
+    }
+
+    /// Declare that the events recorded for an anchor are observed again at each alias.
+    pub(crate) fn aliases_are_expanded(mut self) -> Self {
+        self.aliases_expanded = true;
+        self
     }
 
     /// Observe a parser [`Event`], updating the internal counters.
@@ -382,7 +393,9 @@ impl BudgetEnforcer {
                         aliases: self.report.aliases,
                     });
                 }
-                self.handle_alias();
+                if !self.aliases_expanded {
+                    self.handle_alias();
+                }
             }
             Event::DocumentStart(_explicit) => {
                 if self.policy == EnforcingPolicy::PerDocument {
